@@ -5,10 +5,14 @@
     [CRes]: a history of creations, handle drops / finishes and callbacks on ONE resource storage, run on
     C08's model of the hand-off (the model behind [audio_side_never_frees] / [queues_never_overflow]):
     every callback returns (no push of the audio thread fails, however often the slots are re-used), the
-    reported count, and which payloads are destroyed during which operation and on which thread. *)
+    reported count, and which payloads are destroyed during which operation and on which thread.
+    [CSnd]: a static sound driven callback by callback (a case of C04's model, [C04.Run]): the F40
+    regression cases — a seek far beyond / below a loop region returns, with the output and the
+    position the model predicts.  [CSeek]: one [Transport::seek_to] ([C04.TransportSeek]) — where the
+    decoder of a looping STREAMING sound lands after such a seek. *)
 From Coq Require Import ZArith List Bool.
-From KV Require Import Base.IEEE Base.Corr C01.Model.
-From KV Require C08.Model C08.Run.
+From KV Require Import Base.IEEE Base.Outcome Base.Corr C01.Model.
+From KV Require C08.Model C08.Run C04.Transport C04.TransportSeek C04.Run.
 Import ListNotations.
 Local Open Scope Z_scope.
 
@@ -21,7 +25,10 @@ Inductive case :=
       reserved: sounds, sub-tracks), capacity, observable mask of C08.Run ([M_LEN] = 2, [M_DROPS] = 4),
       operations: 0 = create, 1 = callback, 100 + p = the p-th payload is marked for removal (its handle
       is dropped / it reports [finished]) *)
-| CRes (selfref prebuild : bool) (cap mask : Z) (ops : list Z).
+| CRes (selfref prebuild : bool) (cap mask : Z) (ops : list Z)
+| CSnd (c : C04.Run.case)
+  (** [Transport::seek_to(target, num_frames)] at position [cur] with the loop region [lp] *)
+| CSeek (cur : Z) (lp : option (Z * Z)) (playing : bool) (target num_frames : Z).
 
 Definition res_op_of_Z (z : Z) : C08.Run.op :=
   if z =? 0 then C08.Run.OCreate else if z =? 1 then C08.Run.OCallback else C08.Run.OMark (z - 100).
@@ -36,4 +43,9 @@ Definition run (c : case) : list Z :=
       :: map Z.of_nat (mixer_lengths steps)
   | CRes sr pb cp mask ops =>
       C08.Run.run (C08.Run.CHist sr pb cp mask (map res_op_of_Z ops))
+  | CSnd c => C04.Run.run c
+  | CSeek cur lp playing target n =>
+      encode_outcome (fun t => [C04.Transport.t_pos t; if C04.Transport.t_playing t then 1 else 0])
+        (C04.TransportSeek.transport_seek_to
+           {| C04.Transport.t_pos := cur; C04.Transport.t_loop := lp; C04.Transport.t_playing := playing |} target n)
   end.
